@@ -1,0 +1,43 @@
+//go:build verif
+
+// Package verifhook carries the verification hooks used by the external
+// model-based conformance harness. With the "verif" build tag the functions
+// forward to installable function variables (see x/verifbridge).
+package verifhook
+
+import "sync/atomic"
+
+// Enabled reports whether hooks are compiled in.
+const Enabled = true
+
+type hooks struct {
+	emit  func(obj any, ev string, fields []int64)
+	yield func(obj any, point string)
+}
+
+var cur atomic.Pointer[hooks]
+
+// Install sets the hook functions (nil disables them).
+func Install(emit func(obj any, ev string, fields []int64), yield func(obj any, point string)) {
+	if emit == nil && yield == nil {
+		cur.Store(nil)
+		return
+	}
+	cur.Store(&hooks{emit: emit, yield: yield})
+}
+
+// Emit reports a state-changing step of obj (called under the lock that
+// protects the reported state).
+func Emit(obj any, ev string, fields ...int64) {
+	if h := cur.Load(); h != nil && h.emit != nil {
+		h.emit(obj, ev, fields)
+	}
+}
+
+// Yield marks a point between two critical sections where a scheduler may
+// interleave other goroutines.
+func Yield(obj any, point string) {
+	if h := cur.Load(); h != nil && h.yield != nil {
+		h.yield(obj, point)
+	}
+}
